@@ -3,6 +3,8 @@
 cfg = {"comp": "flag"|"mailbox", "tx": 0..3, "rx": 0..3, "form": "none"|"txrx"|"delay",
        "topo": "same"|"two", "style": "plain"|"coro", "send": "always"|"guarded", "order": "obs_first"|"act_first",
        "first": "prod"|"cons" (same context only: which side's code comes first),
+       "xobs": bool (extra status observations: is_set()/is_clear() mirrored to outputs o_st_* before the decision call,
+               between it and set()/clear() in source order, and after it),
        "uclear": bool (consumer additionally calls clear() without checking is_set(): on input force_clr in the plain
                  style, unconditionally one clock after every receive in the coro style)}
 
@@ -42,6 +44,8 @@ def render(cfg) -> str:
     s += "    clk = Port.input(Bit)\n    want_send = Port.input(Bit)\n    want_recv = Port.input(Bit)\n"
     s += "    payload = Port.input(Unsigned[3])\n    force_clr = Port.input(Bit)\n"
     s += "    o_fclr = Port.output(Bit, default=False)\n"
+    for n in ("p0", "p1", "p2", "c0", "c1", "c2"):
+        s += f"    o_st_{n} = Port.output(Bit, default=False)\n"
     s += "    o_pclear = Port.output(Bit, default=False)\n    o_set = Port.output(Bit, default=False)\n"
     s += "    o_cset = Port.output(Bit, default=False)\n    o_clr = Port.output(Bit, default=False)\n"
     s += "    o_payload = Port.output(Unsigned[3], default=Null)\n\n"
@@ -65,7 +69,16 @@ def render(cfg) -> str:
             prod += f"            if {guard}:\n                {act}\n                self.o_set ^= True\n"
             if late:
                 prod += "            self.o_pclear <<= box.is_clear()\n"
+        xobs = bool(cfg.get("xobs"))
+        # xobs: additional status observations (is_set()/is_clear() mirrored to outputs) before the decision call,
+        # between it and the action, and after the action - several observer calls per context
+        if xobs:
+            prod = ("            self.o_st_p0 <<= box.is_set()\n" + prod.replace(
+                f"            if {guard}:", f"            self.o_st_p1 <<= box.is_clear()\n            if {guard}:", 1)
+                + "            self.o_st_p2 <<= box.is_set()\n")
         cons = "            seen = box.is_set()\n            self.o_payload <<= Null\n"
+        if xobs:
+            cons = "            self.o_st_c0 <<= box.is_clear()\n" + cons + "            self.o_st_c1 <<= box.is_set()\n"
         if not late:
             cons += "            self.o_cset <<= seen\n"
         cons += "            if self.want_recv and seen:\n"
@@ -77,6 +90,8 @@ def render(cfg) -> str:
             cons += "            if self.force_clr:\n                box.clear()\n                self.o_fclr ^= True\n"
         if late:
             cons += "            self.o_cset <<= box.is_set()\n"
+        if xobs:
+            cons += "            self.o_st_c2 <<= box.is_clear()\n"
         if cfg["topo"] == "same":
             body = cons + prod if cfg.get("first", "prod") == "cons" else prod + cons
             s += "        @ctx\n        def proc():\n" + body
@@ -84,9 +99,14 @@ def render(cfg) -> str:
             s += "        @ctx\n        def producer():\n" + prod + "\n        @ctx\n        def consumer():\n" + cons
     else:
         s += "        @ctx\n        async def producer():\n"
+        if cfg.get("xobs"):
+            s += "            self.o_st_p0 <<= box.is_set()\n            self.o_st_p1 <<= box.is_clear()\n"
         s += f"            await self.want_send\n            {act}\n            self.o_set ^= True\n"
         s += "            await box.is_clear()\n            self.o_pclear ^= True\n\n"
-        s += "        @ctx\n        async def consumer():\n            await self.want_recv\n"
+        s += "        @ctx\n        async def consumer():\n"
+        if cfg.get("xobs"):
+            s += "            self.o_st_c0 <<= box.is_clear()\n            self.o_st_c1 <<= box.is_set()\n"
+        s += "            await self.want_recv\n"
         if mb:
             s += "            self.o_payload <<= await box.receive()\n"
         else:
